@@ -8,7 +8,7 @@ Ghost state:  ghost.IN  = bytes the read transport has handed out so far (C03 C1
 
 
 def register(R):
-    R.ghost(IN="bytes", recv_calls="int", EOF="bool", WIRE="bytes", now="real", waited="real", select_calls="int", unbounded_waits="int", last_wait="real", cb_returned="int", cb_failed="int")
+    R.ghost(IN="bytes", recv_calls="int", io_errors="int", EOF="bool", WIRE="bytes", now="real", waited="real", select_calls="int", unbounded_waits="int", last_wait="real", cb_returned="int", cb_failed="int")
     R.external("time.perf_counter", "stubs.stdlib.perf_counter")
     R.external("os.strerror", "stubs.stdlib.strerror")
     R.stubs("stubs/transports.py", "stubs.transports")
@@ -34,12 +34,13 @@ def register(R):
             "ghost.IN == old(ghost.IN) + buffer[:result]",
             "ghost.recv_calls == old(ghost.recv_calls) + 1",
             "ghost.EOF == (old(ghost.EOF) or result == 0)",
+            "ghost.io_errors == old(ghost.io_errors)",
             "len(ghost.IN) == len(old(ghost.IN)) + result",
             "base(buffer) == old(base(buffer))[:view_lo(buffer)] + ghost.IN[len(old(ghost.IN)):] + old(base(buffer))[view_lo(buffer) + result:]",
         ],
         raises={"OSError": ["ghost.IN == old(ghost.IN)", "ghost.recv_calls == old(ghost.recv_calls) + 1", "base(buffer) == old(base(buffer))",
-                            "ghost.EOF == old(ghost.EOF)"]},
-        modifies=["buffer", "ghost.IN", "ghost.recv_calls", "ghost.EOF"],
+                            "ghost.EOF == old(ghost.EOF)", "ghost.io_errors == old(ghost.io_errors) + 1"]},
+        modifies=["buffer", "ghost.IN", "ghost.recv_calls", "ghost.EOF", "ghost.io_errors"],
     )
     R.contract(
         "StreamReadTransport.recv",
@@ -50,10 +51,12 @@ def register(R):
             ("every-returned-byte-is-accounted", "ghost.IN == old(ghost.IN) + result", "C03 C10"),
             ("one-transport-call", "ghost.recv_calls == old(ghost.recv_calls) + 1", "C03"),
             ("empty-result-is-end-of-stream", "ghost.EOF == (old(ghost.EOF) or len(result) == 0)", "C03"),
+            ("no-transport-failure", "ghost.io_errors == old(ghost.io_errors)", "C03"),
         ],
         raises={"OSError": [("nothing-delivered", "ghost.IN == old(ghost.IN)", "C10"), ("one-transport-call", "ghost.recv_calls == old(ghost.recv_calls) + 1"),
-                            ("no-eof-signalled", "ghost.EOF == old(ghost.EOF)", "C03")]},
-        modifies=["ghost.IN", "ghost.recv_calls", "ghost.EOF"],
+                            ("no-eof-signalled", "ghost.EOF == old(ghost.EOF)", "C03"),
+                            ("transport-failure-recorded", "ghost.io_errors == old(ghost.io_errors) + 1", "C03")]},
+        modifies=["ghost.IN", "ghost.recv_calls", "ghost.EOF", "ghost.io_errors"],
         tags="C03 C10",
     )
     R.assume("a write transport's send() accepts a prefix of the given bytes (0 <= sent <= len) and appends exactly that prefix to the wire; "
